@@ -122,7 +122,7 @@ fn c13_from_existing_bc3_4x4() { from_existing_bc::<4, 4, 1, { 80 + 16 }>(0x3431
 #[kani::unwind(20)]
 fn c13_from_existing_bc5_4x4() { from_existing_bc::<4, 4, 1, { 80 + 16 }>(0x6230); }
 #[kani::proof]
-#[kani::unwind(20)]
+#[kani::unwind(40)]
 fn c13_from_existing_bc1_4x4x2() { from_existing_bc::<4, 4, 2, { 80 + 16 }>(0x3420); }
 
 // ------------------------------------------------------------------------------------- C18
